@@ -579,11 +579,11 @@ func init() {
 			// gts repair on streams of 1..3 generated records (7 record shapes with tables of different sizes)
 			if complete && clidrv.Bin() != "" {
 				var streams [][]int
-				for a := 0; a < 7; a++ {
+				for a := 0; a < 9; a++ {
 					streams = append(streams, []int{a})
-					for b := 0; b < 7; b++ {
+					for b := 0; b < 9; b++ {
 						streams = append(streams, []int{a, b})
-						for c := 0; c < 7; c++ {
+						for c := 0; c < 9; c++ {
 							if (a+b+c)%3 == 0 || r.Tier == "thorough" {
 								streams = append(streams, []int{a, b, c})
 							}
